@@ -11,3 +11,17 @@ Definition C06_dom_cur (t : striple) (l : layout) : bool :=
 Definition root_causes_cur (t : striple) (l : layout) : list bool :=
   if nt_fixed_tok then (if nt_fixed_dlt then root_causes_fx3 nt_tok_end_at_hash t l else root_causes_fx t l)
   else root_causes t l.
+
+(** lines of a document ([nt_skips_comment_lines]: blank lines and comment lines are skipped,
+    notes/proposed_fixes/C06-comments-and-blank-lines.diff); raw string / file *)
+Definition dline_dom_cur (d : dline) : bool :=
+  match d with
+  | DStmt t l => C06_dom_cur t l
+  | _ => nt_skips_comment_lines || negb (rc_F9 d)
+  end.
+
+Definition dline_dom_file_cur (d : dline) : bool :=
+  match d with
+  | DStmt t l => C06_dom_cur t l
+  | _ => nt_skips_comment_lines || negb (rc_F9_file d)
+  end.
